@@ -39,6 +39,8 @@ def run(ctx):
     ctx.do(rule_defaulted)
     ctx.do(rule_order_and_precision)
     ctx.do(rule_inner_written_by_constructor)
+    ctx.do(rule_dictionaries_keep_their_order)
+    ctx.do(rule_parse_hands_on_everything)
     # what is serialised parses back to an equal object only if construction already truncated every timestamp to what
     # the serialiser will write: the truncation pipeline (C15) is a necessary condition of the round trip
     from . import C15
@@ -56,6 +58,8 @@ def run(ctx):
     ctx.do(rule_no_hidden_state, "C01.history-independence")
     from .pitfalls import rule_loops_not_cut_short
     ctx.do(rule_loops_not_cut_short, "C01.loops-complete")
+    from .pitfalls import rule_definite_assignment
+    ctx.do(rule_definite_assignment, "C01.definite-assignment")
 
 
 # ---------------------------------------------------------------------------
@@ -532,6 +536,67 @@ def rule_decoder_plain(ctx, rule_id="C01.encoder-siblings"):
                           function=fi.qualname, expected="json.load(s)(text) without hooks", found=short(x, 80))
     if n < 4:
         raise AnalysisError("fewer than 4 JSON decoder calls found (%d): anchors lost" % n)
+
+
+def rule_dictionaries_keep_their_order(ctx, rule_id="C01.spec-order"):
+    """Nested dictionaries (hashes, extensions, dictionary-valued properties, custom content) are written in the order the
+    object holds them, and the object holds them in the order they were given: the dictionary cleaners walk the input mapping
+    directly.  Walking it through sorted() / reversed() / a set re-orders the keys by the names AS GIVEN; after one round trip
+    the names are the normalised ones and sort differently, so the re-serialised text differs from the first one."""
+    run = ctx.run
+    prog = ctx.prog
+    n = 0
+    for cname in ("DictionaryProperty", "HashesProperty", "ExtensionsProperty"):
+        fi = prog.cls("stix2.properties::" + cname).methods.get("clean")
+        if fi is None:
+            continue
+        for lp in [x for x in body_walk(fi.node) if isinstance(x, ast.For) and isinstance(x.target, ast.Tuple)]:
+            it = lp.iter
+            n += 1
+            direct = isinstance(it, ast.Call) and isinstance(it.func, ast.Attribute) and it.func.attr == "items" and not it.args
+            run.check(direct, rule_id, key(fi.module.relpath, fi.qualname, "walks-the-mapping-in-its-own-order:%d" % lp.lineno if False else "walks-the-mapping-in-its-own-order"),
+                      "the cleaner walks the given dictionary through %s instead of directly: the keys of the cleaned value are "
+                      "ordered by something other than the order they were given in, which the parsed-back object does not "
+                      "reproduce" % short(it, 50), file=fi.module.relpath, line=lp.lineno, function=fi.qualname,
+                      expected="for k, v in <dict>.items()", found=short(it, 80))
+    if n < 2:
+        raise AnalysisError("fewer than 2 key/value loops in the dictionary cleaners (%d): anchors lost" % n)
+
+
+def rule_parse_hands_on_everything(ctx, rule_id="C01.version-detectable"):
+    """What parse() gives the class constructor is the decoded content itself: `Cls(..., **content)` with `content` the
+    parameter (or a plain copy of it).  A filtered or rebuilt dictionary (a comprehension dropping keys, a pop) makes parse
+    silently lose what the constructor -- which accepted the same keys when the object was built -- would have kept or
+    refused."""
+    run = ctx.run
+    prog = ctx.prog
+    from ..cfg import ReachingDefs, cfg_of
+    n = 0
+    for fid in ("stix2.parsing::dict_to_stix2",):
+        fi = prog.func(fid)
+        g = cfg_of(fi)
+        rd = ReachingDefs(g, fi.all_param_names())
+        p0 = fi.params[0]
+        for c in [c for c in body_walk(fi.node) if isinstance(c, ast.Call) and any(k.arg is None for k in c.keywords)]:
+            data = [k.value for k in c.keywords if k.arg is None][0]
+            st_ = c
+            while not isinstance(st_, ast.stmt):
+                st_ = st_.parent
+            n += 1
+            ok = False
+            found = norm(data)
+            if isinstance(data, ast.Name):
+                defs = rd.reaching(g.node_of(st_), data.id)
+                vals = [v for _d, v in defs]
+                found = [norm(v) if isinstance(v, ast.AST) else str(v) for v in vals]
+                ok = bool(vals) and all(v == ("param", p0) or (isinstance(v, ast.Call) and norm(v.func) in ("dict", "copy.copy", "copy.deepcopy")
+                                                                and len(v.args) == 1 and norm(v.args[0]) == p0) for v in vals)
+            run.check(ok, rule_id, key(fi.module.relpath, fi.qualname, "constructor-gets-the-whole-content"),
+                      "the dictionary splatted into the class constructor is not the decoded content (or a plain copy): keys are "
+                      "dropped or rewritten on the way, so a property the object was built and serialised with disappears on parse",
+                      file=fi.module.relpath, line=c.lineno, function=fi.qualname, expected="obj_class(..., **%s)" % p0, found=found)
+    if n < 1:
+        raise AnalysisError("dict_to_stix2: no constructor splat found")
 
 
 # who may write the property storage of an object (frozen; one reason each)
